@@ -9,6 +9,8 @@ import CG.Driver.HAlias
 import CG.Driver.HConv
 import CG.Driver.HEq
 import CG.Driver.HIdent
+import CG.Driver.HCache
+import CG.Driver.HTs
 
 /-- stateless handlers: first token of a line selects the handler -/
 def handlers : List (String × (List String → String)) := [
@@ -23,6 +25,8 @@ def handlers : List (String × (List String → String)) := [
   ("eq", CG.Driver.Eq.handle),
   ("sk", CG.Driver.Eq.handleSk),
   ("ident", CG.Driver.Ident.handle),
+  ("cache", CG.Driver.CacheH.handle),
+  ("ts", CG.Driver.TS.handle),
   ("gecho", fun args => match args with
     | [t] => (match CG.Driver.GraphCodec.decGraph? t with | some g => CG.Driver.GraphCodec.encGraph g | none => "bad-op")
     | _ => "bad-op")
